@@ -57,6 +57,10 @@ func buildPool() *pool {
 	}
 	a := mk(pki.LeafSpec(k1, "c19-subject"), root, caKey)
 	add("A", a)
+	// same issuer AND same serial number as A, but another key and subject
+	clash := pki.LeafSpec(k2, "c19-serial-clash")
+	clash.Serial = a.SerialNumber
+	add("same-issuer-and-serial-other-key", mk(clash, root, caKey))
 	add("A-reissued-other-serial", mk(pki.LeafSpec(k1, "c19-subject"), root, caKey))
 	sameKeyOtherSubject := mk(pki.LeafSpec(k1, "c19-other-subject"), root, caKey)
 	add("same-subject-other-key", mk(pki.LeafSpec(k2, "c19-subject"), root, caKey))
@@ -67,6 +71,10 @@ func buildPool() *pool {
 	v := pki.LeafSpec(k1, "c19-subject")
 	v.NotAfter = time.Date(2050, 1, 1, 0, 0, 0, 0, time.UTC)
 	add("A-reissued-other-validity", mk(v, root, caKey))
+	// a forged self-signed root with the trusted root's name and serial, other key
+	fr := pki.CASpec(pki.K("p256", 6), "c19-root")
+	fr.Serial = root.SerialNumber
+	add("forged-root-same-name-and-serial", mk(fr, nil, nil))
 	add("unrelated-root", root2)
 	add("unrelated-leaf", mk(pki.LeafSpec(pki.K("p256", 5), "c19-unrelated"), root2, ca2Key))
 	return p
@@ -216,12 +224,12 @@ func timeGrid(r *core.Run) {
 }
 
 func run(r *core.Run) int {
-	r.Rule = "all ordered chains (length 1..4, repetition allowed) x all ordered trust lists (length 0..4) over a pool of look-alike certificates (re-issued with other serial / other validity, same subject other key, same key other subject, root and its cross-signed twin, unrelated); quick: pool of 6 with trust lists up to 3, thorough: pool of 9; " +
+	r.Rule = "all ordered chains (length 1..4, repetition allowed) x all ordered trust lists (length 0..4) over a pool of look-alike certificates (re-issued with other serial / other validity, same subject other key, same key other subject, root and its cross-signed twin, unrelated); quick: the first 6 pool members, thorough: all 11, trust lists up to 3; " +
 		"plus the scheme x time grid for AuthenticSigningTime. non-trivial = chain and trust list share a look-alike pair or an exact match; counted per distinct (chain, trust) pair"
 	r.Assume("pointer identity of the returned certificate is asserted only as membership in the trust list plus DER equality")
 	pl = buildPool()
-	n := r.Pick(6, 9)
-	maxTrust := r.Pick(3, 4)
+	n := r.Pick(6, 11)
+	maxTrust := r.Pick(3, 3)
 	chains := tuples(n, 4, false)
 	trusts := tuples(n, maxTrust, true)
 	r.Set("pool", pl.names[:n])
